@@ -46,6 +46,9 @@ def main():
         if rc_b != 0:
             meta["error"] = "build failed: " + out_b[-400:]
     sh(f"cp {sd}/demo.py {wt}/demo_seed.py")
+    for extra in os.listdir(sd):          # helper modules a demo imports
+        if extra.endswith(".py") and extra != "demo.py":
+            sh(f"cp {sd}/{extra} {wt}/{extra}")
     rc_with, out_with = sh("/venv/bin/python demo_seed.py", cwd=wt, env=env, timeout=600)
     meta["demo_with_change_rc"] = rc_with
     meta["ran"].append(f"cd {wt} && PYTHONPATH={wt} /venv/bin/python demo_seed.py  -> rc {rc_with} (must be != 0)")
